@@ -186,7 +186,9 @@ def check(ctx: Ctx) -> None:
         consts = repo.cls("Message").consts
         idp = f_lrecv.params()[1]
         IDT = ("sym", idp)
-        cb_call = lambda c: isinstance(c.func, ast.Name) and c.func.id == "callback"  # noqa: E731
+        from ._chan import entry_calls as _ecalls
+        cb_nodes = {id(c_) for (c_, _o, what_) in _ecalls(repo, f_lrecv) if what_ == "item"}
+        cb_call = lambda c: id(c) in cb_nodes or (isinstance(c.func, ast.Name) and c.func.id == "callback")  # noqa: E731
         evb = _evb(repo, f_lrecv, Oracle(repo, f_lrecv, precise=True, call_raises=lambda c, f: [("Exception", True)] if cb_call(c) else None))
         n_fail = 0
         txt_ok = ok_send = ok_local = True
@@ -203,6 +205,9 @@ def check(ctx: Ctx) -> None:
                 continue
             T = texts[-1].result
             tv = show(T)
+            if any(t_[0] == "cmp" and t_[1] == "is" and T in (t_[2], t_[3]) and ("const", None) in (t_[2], t_[3]) and v_ is True for (t_, v_) in st_.cond):
+                n_fail -= 1
+                continue   # the error text is a str on every path (C07.m): "text is None" arms of a shared helper are not reachable from here
             dumps_ = [e for e in after if e.kind == "call" and str(e.callee or "").split(".")[-1] == "dumps_internal" and e.args[:1] == (T,)]
             sends = [e for e in after if e.kind == "call" and (e.attr == "_send" or str(e.callee or "").endswith("._send")) and e.args and e.args[0] == ("const", consts["CHANNEL_CLOSE_ERROR"])]
             if not (len(sends) == 1 and len(sends[0].args) >= 3 and sends[0].args[1] == IDT and any(sends[0].args[2] == d.result for d in dumps_)):
